@@ -1,16 +1,19 @@
 package main
 
 import (
+	"bytes"
 	"fmt"
 	"math/big"
 	"math/rand"
 	"sort"
+	"strings"
 
 	"github.com/dappledger/AnnChain/eth/common"
 	"github.com/dappledger/AnnChain/eth/core/state"
 	"github.com/dappledger/AnnChain/eth/core/types"
 	"github.com/dappledger/AnnChain/eth/crypto"
 	"github.com/dappledger/AnnChain/eth/ethdb"
+	"github.com/dappledger/AnnChain/eth/rlp"
 
 	refcommon "github.com/ethereum/go-ethereum/common"
 	refstate "github.com/ethereum/go-ethereum/core/state"
@@ -324,7 +327,15 @@ type mismatch struct {
 	What  string
 }
 
-func (w *world) compare(s *state.StateDB, m *model, journalParts bool, storageIter bool) *mismatch {
+// rlpOfSlot is what the storage trie holds for a slot value.
+func rlpOfSlot(v [32]byte) common.Hash {
+	enc, _ := rlp.EncodeToBytes(bytes.TrimLeft(v[:], "\x00"))
+	return common.BytesToHash(enc)
+}
+
+// compare: storageIter additionally walks ForEachStorage; if it yields the RLP
+// encoding of a slot instead of its value, *rlpQuirk is set and the walk goes on.
+func (w *world) compare(s *state.StateDB, m *model, journalParts bool, storageIter bool, rlpQuirk *string) *mismatch {
 	for i, a := range w.addrs {
 		acc, ok := m.accts[i]
 		if s.Exist(a) != ok {
@@ -375,7 +386,13 @@ func (w *world) compare(s *state.StateDB, m *model, journalParts bool, storageIt
 					if sk == key {
 						found = true
 						if common.Hash(acc.storage[k]) != value {
-							bad = fmt.Sprintf("slot k%d = %x, model %x", k, value, acc.storage[k])
+							if rlpQuirk != nil && value == rlpOfSlot(acc.storage[k]) {
+								if *rlpQuirk == "" {
+									*rlpQuirk = fmt.Sprintf("ForEachStorage(a%d) yields slot k%d = %x; GetState and the model say %x (the callback gets the RLP encoding stored in the trie)", i, k, value, acc.storage[k])
+								}
+							} else {
+								bad = fmt.Sprintf("slot k%d = %x, model %x", k, value, acc.storage[k])
+							}
 						}
 					}
 				}
@@ -465,13 +482,15 @@ func (w *world) rebuildRoot(m *model, deleteEmpty bool, rng *rand.Rand) (common.
 	return s.Commit(deleteEmpty)
 }
 
-// counterfactualRoot replays the surviving operations on a fresh StateDB and
-// adds SetNonce(addr, 0) after every CreateAccount over an existing account;
-// returns the last root and the number of such CreateAccount calls.
-func (w *world) counterfactualRoot(surv []*sop) (common.Hash, int) {
-	s, err := state.New(common.Hash{}, state.NewDatabase(ethdb.NewMemDatabase()))
+// counterfactual replays the surviving operations on a fresh StateDB and adds
+// SetNonce(addr, 0) (no content change, but a journal entry that marks the
+// address dirty) after every CreateAccount over an existing account; returns the
+// last root, the state, its database and the number of such CreateAccount calls.
+func (w *world) counterfactual(surv []*sop) (common.Hash, *state.StateDB, state.Database, int) {
+	db := state.NewDatabase(ethdb.NewMemDatabase())
+	s, err := state.New(common.Hash{}, db)
 	if err != nil {
-		return common.Hash{}, 0
+		return common.Hash{}, nil, nil, 0
 	}
 	var root common.Hash
 	n := 0
@@ -493,7 +512,57 @@ func (w *world) counterfactualRoot(surv []*sop) (common.Hash, int) {
 			w.applyIn(s, o)
 		}
 	}
+	return root, s, db, n
+}
+
+// counterfactualRef: the same replay on the reference StateDB.
+func (w *world) counterfactualRef(surv []*sop) (refcommon.Hash, int) {
+	s, err := refstate.New(refcommon.Hash{}, refstate.NewDatabase(refethdb.NewMemDatabase()))
+	if err != nil {
+		return refcommon.Hash{}, 0
+	}
+	var root refcommon.Hash
+	n := 0
+	for _, o := range surv {
+		switch o.Kind {
+		case "IntermediateRoot":
+			root = s.IntermediateRoot(o.Flag)
+		case "Commit":
+			root, _ = s.Commit(o.Flag)
+		case "CreateAccount":
+			a := refcommon.Address(w.addrs[o.A])
+			existed := s.Exist(a)
+			w.applyRef(s, o)
+			if existed {
+				s.SetNonce(a, 0)
+				n++
+			}
+		default:
+			w.applyRef(s, o)
+		}
+	}
 	return root, n
+}
+
+// explained: does the counterfactual run agree with the model at this stage?
+func (w *world) explained(surv []*sop, m *model, stage string) (ok bool) {
+	defer func() {
+		if recover() != nil {
+			ok = false
+		}
+	}()
+	root, s, db, n := w.counterfactual(surv)
+	if n == 0 || s == nil {
+		return false
+	}
+	if strings.HasPrefix(stage, "reopen") {
+		re, err := state.New(root, db)
+		if err != nil {
+			return false
+		}
+		s = re
+	}
+	return w.compare(s, m, false, false, nil) == nil
 }
 
 // ---- generation ----
@@ -565,6 +634,9 @@ func genStorageVal(rng *rand.Rand) (v [32]byte) {
 type stateCase struct {
 	No    int
 	Flag  bool
+	// BareCreate: CreateAccount over an existing account is not followed by
+	// anything (1 history in 8); otherwise SetNonce(addr, 1) follows, as in evm.create.
+	BareCreate bool
 	w     *world
 	trace []string // every step taken, for the witness
 }
@@ -583,7 +655,7 @@ func (c *stateCase) witness(extra map[string]interface{}) map[string]interface{}
 		tr = append([]string{fmt.Sprintf("... %d earlier steps omitted", len(tr)-600)}, tr[len(tr)-600:]...)
 	}
 	wit := map[string]interface{}{
-		"case": c.No, "seed": lib.Seed(), "tier": lib.Tier(), "delete_empty_objects": c.Flag,
+		"case": c.No, "seed": lib.Seed(), "tier": lib.Tier(), "delete_empty_objects": c.Flag, "bare_create_account": c.BareCreate,
 		"regenerate": fmt.Sprintf("VERIF_SEED=%d ./check C11 %s -state-case %d", lib.Seed(), lib.Tier(), c.No),
 		"addresses":  addrs, "storage_keys": keys, "steps": tr,
 	}
@@ -617,7 +689,7 @@ func runStateCase(no int) {
 		}
 		w.skeys = append(w.skeys, k)
 	}
-	c := &stateCase{No: no, Flag: no%2 == 0, w: w}
+	c := &stateCase{No: no, Flag: no%2 == 0, w: w, BareCreate: no%8 == 5}
 	cnt := ctr{}
 	defer cnt.flush()
 	run.Eval()
@@ -677,29 +749,38 @@ func stateMonitor(c *stateCase, rng *rand.Rand, cnt ctr) {
 	}
 	step := func(s string) { c.trace = append(c.trace, s) }
 	failed := false
+	const quirkKey = "f/CreateAccount-over-existing-account-not-marked-dirty"
 	report := func(stage string, mm *mismatch) {
 		failed = true
-		cause := ""
-		if mm.Addr >= 0 {
-			cause = "/last-op=" + lastOp[mm.Addr]
-			if lastOp[mm.Addr] == "" {
-				cause = "/account-not-written-since-finalise"
-			}
-			if createdOver[mm.Addr] {
-				cause += "+CreateAccount-over-existing-account"
-			}
+		if mm.Addr >= 0 && w.explained(surv, m, stage) {
+			run.Violation(quirkKey, fmt.Sprintf("StateDB %s: %s. The same surviving operations with SetNonce(addr, 0) added after every CreateAccount over an existing account match the model: CreateAccount over an existing account leaves the address clean, so IntermediateRoot/Commit neither write the reset account nor delete it when it is empty.", stage, mm.What), c.witness(map[string]interface{}{"stage": stage, "mismatch": mm.What}))
+			return
 		}
-		run.Violation("f/"+stage+"/"+mm.Field+cause, fmt.Sprintf("StateDB %s: %s", stage, mm.What), c.witness(map[string]interface{}{"stage": stage, "mismatch": mm.What}))
+		ctx := ""
+		if mm.Addr >= 0 {
+			ctx = fmt.Sprintf(" (last surviving operation on a%d since the last finalisation: %q)", mm.Addr, lastOp[mm.Addr])
+		}
+		run.Violation("f/"+stage+"/"+mm.Field, fmt.Sprintf("StateDB %s: %s%s", stage, mm.What, ctx), c.witness(map[string]interface{}{"stage": stage, "mismatch": mm.What}))
 	}
+	rlpQuirk := ""
+	reportQuirk := func() {
+		if rlpQuirk != "" {
+			run.Violation("f/ForEachStorage-yields-rlp-encoded-value", rlpQuirk, c.witness(nil))
+			cnt.add("foreachstorage_rlp_values", 1)
+			rlpQuirk = "reported"
+		}
+	}
+	defer reportQuirk()
 	check := func(stage string, storageIter bool) bool {
 		cnt.add("model_comparisons", 1)
-		if mm := w.compare(sdb, m, true, storageIter); mm != nil {
+		if mm := w.compare(sdb, m, true, storageIter, nil); mm != nil {
 			report(stage, mm)
 			return false
 		}
 		return true
 	}
 	txCounter := 0
+	maxDepth := 0
 	flushRef := func() {
 		for _, o := range surv[fed:] {
 			w.applyRef(rdb, o)
@@ -737,7 +818,14 @@ func stateMonitor(c *stateCase, rng *rand.Rand, cnt ctr) {
 		cnt.add("state_roots_compared_with_reference", 1)
 		if common.Hash(rroot) != root {
 			failed = true
-			run.Violation("f/"+name+"-root-differs-from-reference", fmt.Sprintf("%s(%v) = %x, reference StateDB fed the surviving operations = %x", name, F, root, rroot), c.witness(nil))
+			key := "f/" + name + "-root-differs-from-reference"
+			what := fmt.Sprintf("%s(%v) = %x, reference StateDB fed the surviving operations = %x", name, F, root, rroot)
+			if cf, n := w.counterfactualRef(append(surv, &sop{Kind: name, Flag: F})); n > 0 && common.Hash(cf) == root {
+				// only possible on a tree where CreateAccount over an existing account marks the address dirty
+				key = "f/reference-root-differs-only-because-reference-leaves-CreateAccount-over-existing-account-clean"
+				what += "; the reference agrees once it is given SetNonce(addr, 0) after every CreateAccount over an existing account"
+			}
+			run.Violation(key, what, c.witness(nil))
 			return false
 		}
 		surv = append(surv, &sop{Kind: name, Flag: F})
@@ -756,11 +844,11 @@ func stateMonitor(c *stateCase, rng *rand.Rand, cnt ctr) {
 				// fresh StateDB, with an explicit SetNonce(addr, 0) (no content change, but a
 				// journal entry that marks the address dirty) after every CreateAccount that
 				// hits an existing account.
-				cause := "/unexplained"
-				if cf, n := w.counterfactualRoot(surv); n > 0 && cf == rb {
-					cause = "/explained-by-CreateAccount-over-existing-account-not-marked-dirty"
+				key := "f/" + name + "-root-differs-from-rebuilt-content"
+				if cf, _, _, n := w.counterfactual(surv); n > 0 && cf == rb {
+					key = quirkKey
 				}
-				run.Violation("f/"+name+"-root-differs-from-rebuilt-content"+cause, fmt.Sprintf("%s(%v) = %x, a fresh StateDB given the same content = %x (%v)", name, F, root, rb, err), c.witness(map[string]interface{}{"content": modelStrings(m, w)}))
+				run.Violation(key, fmt.Sprintf("%s(%v) = %x, a fresh StateDB given the same content = %x (%v)", name, F, root, rb, err), c.witness(map[string]interface{}{"content": modelStrings(m, w)}))
 				return false
 			}
 		}
@@ -773,7 +861,7 @@ func stateMonitor(c *stateCase, rng *rand.Rand, cnt ctr) {
 				return false
 			}
 			cnt.add("state_reopens", 1)
-			if mm := w.compare(re, m, false, true); mm != nil {
+			if mm := w.compare(re, m, false, true, &rlpQuirk); mm != nil {
 				report("reopen-same-db", mm)
 				return false
 			}
@@ -793,7 +881,7 @@ func stateMonitor(c *stateCase, rng *rand.Rand, cnt ctr) {
 					return false
 				}
 				cnt.add("state_reopens_from_disk", 1)
-				if mm := w.compare(re2, m, false, true); mm != nil {
+				if mm := w.compare(re2, m, false, true, &rlpQuirk); mm != nil {
 					report("reopen-from-disk", mm)
 					return false
 				}
@@ -850,7 +938,10 @@ func stateMonitor(c *stateCase, rng *rand.Rand, cnt ctr) {
 			if len(snaps) > 1 {
 				cnt.add("snapshots_nested", 1)
 			}
-			run.Distinct("snapshot_depths", fmt.Sprint(len(snaps)))
+			if len(snaps) > maxDepth {
+				maxDepth = len(snaps)
+				run.Distinct("snapshot_depths", fmt.Sprint(maxDepth))
+			}
 		case r < pSnap+pRevert:
 			if len(snaps) == 0 {
 				continue
@@ -984,6 +1075,14 @@ func stateMonitor(c *stateCase, rng *rand.Rand, cnt ctr) {
 			ret := w.applyIn(sdb, o)
 			want := m.apply(o)
 			surv = append(surv, o)
+			if o.Kind == "CreateAccount" && existed && !c.BareCreate {
+				// as the EVM's create does (post-EIP-158): the new account's nonce is set right away
+				o2 := &sop{Kind: "SetNonce", A: o.A, Nonce: 1}
+				step(o2.String() + "   (EVM-like create)")
+				w.applyIn(sdb, o2)
+				m.apply(o2)
+				surv = append(surv, o2)
+			}
 			switch o.Kind {
 			case "AddLog", "AddRefund", "SubRefund", "AddPreimage":
 			default:
@@ -991,6 +1090,9 @@ func stateMonitor(c *stateCase, rng *rand.Rand, cnt ctr) {
 				if o.Kind == "CreateAccount" && existed {
 					createdOver[o.A] = true
 					cnt.add("ops_CreateAccount_over_existing", 1)
+					if c.BareCreate {
+						cnt.add("ops_CreateAccount_over_existing_bare", 1)
+					}
 				}
 				if o.Kind == "Suicide" && !existed {
 					delete(lastOp, o.A)
